@@ -1,6 +1,9 @@
 import IsoVerif.Driver.Core
 import IsoVerif.Model.Counter
+import IsoVerif.Model.CounterCombine
+import IsoVerif.Model.CounterGrouped
 import IsoVerif.Gen.CounterTables
+import IsoVerif.Gen.CombineTables
 import IsoVerif.Gen.Weights
 
 namespace IsoVerif.Driver.C02
@@ -76,7 +79,74 @@ def jPart (j : Json) : Except String (Part String) := do
   | [a, n, na, u] => pure { rows := rows, ambiguous := a, noFeature := n, notAligned := na, usable := u }
   | _ => throw "stats: 4 numbers expected"
 
+def jTpmPrinted (j : Json) : Except String TpmPrinted := do
+  pure { rows := ← jList (jPair jStr jInt) (← arg j "rows"), unassigned := ← jInt (← arg j "unassigned") }
+
+def jExperiment (j : Json) : Except String ExperimentTables := do
+  pure { name := ← jStr (← arg j "name"),
+         geneCounts := ← jPart (← arg j "gene_counts"),
+         transcriptCounts := ← jPart (← arg j "transcript_counts"),
+         geneTpm := ← jTpmPrinted (← arg j "gene_tpm"),
+         transcriptTpm := ← jTpmPrinted (← arg j "transcript_tpm") }
+
+def ofCombined (t : List String × List (String × List (Option String))) : Json :=
+  Json.mkObj [("header", ofList ofStr t.1),
+              ("rows", ofList (fun row => Json.arr #[ofStr row.1, ofList (ofOpt ofStr) row.2]) t.2)]
+
+def jFormat (j : Json) : Except String GroupedOutputFormat := do
+  let s ← jStr j
+  match GroupedOutputFormat.ofName? s with
+  | some x => pure x
+  | none => throw s!"unknown format {s}"
+
 def ops : List (String × Handler) := [
+  -- growth: part files given by NAME (the natural order is C06's model), combine_counts, grouped tables through C09
+  ("merge_counts_named", fun j => do
+      let named ← jList (jPair jStr jPart) (← arg j "parts")
+      pure (Json.mkObj [("order", ofList ofStr ((orderParts named).map Prod.fst)),
+                        ("merged", ofPart (mergeCountsNamed named (← jNat (← arg j "unaligned"))))])),
+  ("combine_counts", fun j => do
+      let es ← jList jExperiment (← arg j "exps")
+      let r := combineCounts (fmtFixed count_decimals) (fmtFixed tpm_decimals) toString es
+      pure (Json.mkObj [("combined_gene_counts.tsv", ofCombined r.geneCounts),
+                        ("combined_gene_tpm.tsv", ofCombined r.geneTpm),
+                        ("combined_transcript_counts.tsv", ofCombined r.transcriptCounts),
+                        ("combined_transcript_tpm.tsv", ofCombined r.transcriptTpm)])),
+  ("combine_tables_gen", fun _ => do
+      pure (Json.mkObj [("combine_dropped_tail", ofNat combine_dropped_tail),
+                        ("join", ofList ofStr [combine_join_key, combine_join_how]),
+                        ("combine_calls", ofList (fun c => Json.arr #[ofStr c.1, ofStr c.2.1, ofStr c.2.2.1, ofStr c.2.2.2.1,
+                                                                       ofBool c.2.2.2.2]) combine_calls),
+                        ("header", ofList ofStr [counts_header_key, counts_header_value]),
+                        ("tpm_header_replace", ofList ofStr [tpm_header_replace.1, tpm_header_replace.2]),
+                        ("tpm_unassigned_name", ofStr tpm_unassigned_name)])),
+  ("grouped_run_dump", fun j => do
+      let s ← jStrategy (← arg j "s")
+      let lvl ← jLevel (← arg j "lvl")
+      let complete ← jList jStr (← arg j "complete")
+      let groups ← jList jStr (← arg j "groups")
+      let oz ← jBool (← arg j "output_zeroes")
+      let fmt ← jFormat (← arg j "fmt")
+      let tes ← jList (jPair jEvent jStr) (← arg j "events")
+      -- the composite counter feeds the ungrouped counter first: a call that raises there never reaches the grouped one
+      match run s lvl (CState.init complete) (tes.map Prod.fst) with
+      | none => pure (jErr "error")
+      | some _ =>
+        match groupedRun groups s lvl complete oz fmt tes with
+        | .error _ => pure (jErr "error")
+        | .ok c =>
+          match IsoVerif.Model.C09.dump c with
+          | .error _ => pure (jErr "error")
+          | .ok d =>
+            pure (Json.mkObj [
+              ("header", ofList ofStr d.header),
+              ("matrix", ofOpt (ofList (fun r => Json.arr #[ofStr r.1, ofList ofRat r.2,
+                                                            ofList (fun q => ofInt (hundredths q)) r.2])) d.matrix),
+              ("linear", ofOpt (ofList (fun t => Json.arr #[ofStr t.1, ofStr t.2.1, ofRat t.2.2,
+                                                            ofInt (hundredths t.2.2)])) d.linear),
+              ("group_sums", ofList (fun g => Json.arr #[ofStr g,
+                  ofList (fun f => Json.arr #[ofStr f, ofRat (groupSum s lvl tes g f)]) (isort strLe (dedup c.allFeatures))])
+                (IsoVerif.Model.C09.sortStr groups))])),
   ("process_ambiguous", fun j => do
       pure (ofRat (processAmbiguous (← jStrategy (← arg j "s")) (← jNat (← arg j "k"))))),
   ("process_inconsistent", fun j => do
